@@ -33,15 +33,24 @@ J2000 = datetime(2000, 1, 1)
 def f14_6(rng, kind):
     """(text of an F14.6 field, Fraction | None for a sentinel)"""
     if kind == "pos":
-        if rng.random() < 0.06:
+        k = rng.random()
+        if k < 0.06:
             return f"{0.0:14.6f}", None
-        v = Fraction(rng.randint(-45_000_000_000, 45_000_000_000), 10**6)
-        if v == 0:
-            v = Fraction(1, 10**6)
+        if k < 0.12:  # the smallest non-zero values next to the 0.000000 sentinel
+            v = Fraction(rng.choice([1, -1, 2, -2, 10, -10]), 10**6)
+        else:
+            v = Fraction(rng.randint(-45_000_000_000, 45_000_000_000), 10**6)
+            if v == 0:
+                v = Fraction(1, 10**6)
     else:
-        if rng.random() < 0.08:
-            return f"{999999.999999:14.6f}", None
-        v = Fraction(rng.randint(-999_999_000_000, 999_999_000_000), 10**6)
+        k = rng.random()
+        if k < 0.08:
+            return "999999.999999".rjust(14), None
+        if k < 0.14:  # values next to the 999999.999999 sentinel (and its negative, which is an ordinary value)
+            v = Fraction(rng.choice([999_999_999_998, 999_999_999_997, 999_999_999_990, -999_999_999_999, -999_999_999_998,
+                                     999_999_000_000, 1, -1, 0]), 10**6)
+        else:
+            v = Fraction(rng.randint(-999_999_000_000, 999_999_000_000), 10**6)
     s = "-" if v < 0 else ""
     a = abs(v)
     t = f"{s}{a.numerator * 10**6 // a.denominator // 10**6}.{a.numerator * 10**6 // a.denominator % 10**6:06d}"
@@ -63,7 +72,10 @@ def gen_file(rng, quick):
     base_clk = rng.choice(["1.025000000", "2.000000000", "1.500000000"])
     t0 = datetime(rng.randint(1995, 2035), rng.randint(1, 12), rng.randint(1, 28), rng.randint(0, 23), rng.choice([0, 15, 30, 45, rng.randint(0, 59)]))
     frac0 = rng.choice([0, 0, 5_000_000, 1, 9_999_999, rng.randint(0, 9_999_999)])  # units of 1e-7 s
-    step7 = rng.choice([900, 300, 30, 1]) * 10**7 + rng.choice([0, 0, 0, 5_000_000, rng.randint(0, 9_999_999)])
+    if rng.random() < 0.3:  # several epochs inside one integral second
+        step7 = rng.choice([1_000_000, 2_500_000, 5_000_000, 1, 3_333_333])
+    else:
+        step7 = rng.choice([900, 300, 30, 1]) * 10**7 + rng.choice([0, 0, 0, 5_000_000, rng.randint(0, 9_999_999)])
     agency = rng.choice(["IGS", "COD", "ESA", "GFZ", "NGS", "JPL "]).strip()
     coord = rng.choice(["IGb08", "IGS14", "IGS20", "ITR97", "WGS84"])
     orb = rng.choice(["HLM", "FIT", "EXT", "BCT"])
@@ -349,6 +361,8 @@ def one_file(ctx, impl, drv, f, corpus=False):
         ctx.count(f"version:{f['meta']['version']}{f['meta']['pv_flag']}")
         ctx.count(f"time_sys:{f['meta']['time_sys']}")
         ctx.count("fractional-epochs" if any(r["f7"] for r in f["recs"]) else "whole-second-epochs")
+        if len({r["t"] for r in f["recs"]}) < len({(r["t"], r["f7"]) for r in f["recs"]}):
+            ctx.count("epochs-sharing-a-second")
     st, p = impl.parse(f["text"])
     a = drv.ask1(f"c13 file {hexs(f['text'])}")
     if st == "raises":
@@ -378,8 +392,8 @@ def run(ctx: Ctx):
     quick = not ctx.thorough
     impl = Impl()
     ctx.rule = ("SP3-c and SP3-d files rendered by an independent writer: 1..90 satellites of any constellation letter, "
-                "1..50 epochs with whole and fractional (1e-7 s) seconds and steps, P and P+V files with EP/EV lines, "
-                "0.000000 / 999999.999999 sentinels, blank accuracy codes, records cut after the clock or after the codes, "
+                "1..50 epochs with whole and fractional (1e-7 s) seconds and steps incl. sub-second steps (0.1/0.25/0.5 s, several epochs per integral second), P and P+V files with EP/EV lines, "
+                "0.000000 / 999999.999999 sentinels and the values next to them (+-0.000001, +-0.000002, 999999.999998, -999999.999999), blank accuracy codes, records cut after the clock or after the codes, "
                 "GPS and UTC time systems, comment/%i/+/++ header lines; every case non-trivial; distinct by file text")
     ctx.trusted += ["float(text) vs correctly rounded double of the exact rational; products with unit factors compared to 4e-16 relative, "
                     "base**code to 1e-13 relative (floating-point error measured, not proved)",
